@@ -35,7 +35,7 @@ from ..cfg import explore
 from ..rules import node_calls, event_facts, check_take_and_clear, settle_sites
 from ..mutate import mutate, remove_stmts, replace_expr, replace_stmt, parse_stmt, parse_expr
 from ..model import AnalysisError
-from ..x_guardflow import ClassEffects, guard_facts, has, fold_cfg, UNKNOWN
+from ..x_guardflow import ClassEffects, guard_facts, has, fold_cfg, UNKNOWN, expand_expr
 from ..x_iostream import read_end_mode
 
 TECHNIQUE = "must-pass-through on the CFG, finite-domain folding of the position predicate, exception-escape fixpoint, paired-update and take-and-clear lints"
@@ -153,6 +153,31 @@ def find_read_pos(ck):
     bad = _not_followed(fi, lambda n: n.id in sid, node_calls("self._check_max_bytes"))
     for n in searches:
         ck.ob("C11.max-bytes-checked", fi, n.ast, n.id not in bad, "after searching the buffer, max_bytes is checked on every path (found: the position; not found: the buffered size)")
+    # (b2) the search covers every byte that can still be part of a match
+    n_cov = 0
+    for n in searches:
+        for c in q.calls(n.ast):
+            if not (isinstance(c.func, ast.Attribute) and c.func.attr in ("find", "search", "index", "match")):
+                continue
+            if q.receiver(c) == "self._read_buffer":
+                # bytearray.find(sub[, start[, end]])
+                n_cov += 1
+                start = q.arg(c, 1)
+                end = q.arg(c, 2)
+                if end is not None or c.keywords:
+                    raise AnalysisError("delimiter search with an end bound / keywords is not modelled: %s" % q.unparse(c))
+                if start is None or q.is_const(start, 0):
+                    ck.ob("C11.search-coverage", fi, c, True, "the delimiter search starts at the beginning of the buffer")
+                    continue
+                _resume_offset_ok(ck, fi, c, start)
+            elif any(q.dotted(a) == "self._read_buffer" for a in c.args):
+                # pattern.search(buffer[, pos[, endpos]])
+                n_cov += 1
+                extra = [a for a in c.args[1:]] + [k.value for k in c.keywords]
+                ok = all(q.is_const(a, 0) for a in extra)
+                ck.ob("C11.search-coverage", fi, c, ok, "the regex search covers the whole buffer (a match has no bounded length, so no prefix may be skipped)")
+    ck.floor("C11.search-coverage", n_cov, 2, "buffer searches")
+
     # (c) what is checked
     rets = {q.unparse(n.ast.value) for n in fi.cfg.stmt_nodes(lambda n: n.kind == "stmt" and isinstance(n.ast, ast.Return) and n.ast.value is not None)}
     for node, c in checks:
@@ -182,7 +207,7 @@ def find_read_pos(ck):
     for node in fi.cfg.stmt_nodes(lambda n: n.kind == "stmt" and isinstance(n.ast, ast.Return) and n.ast.value is not None and not (isinstance(n.ast.value, ast.Constant) and n.ast.value.value is None)):
         if has(gf[node.id], "self._read_delimiter is None", False):
             n_pv += 1
-            finds = [st for st in q.walk_body(fi.node) if isinstance(st, ast.Assign) and isinstance(st.value, ast.Call) and q.call_attr(st.value) in ("find", "index") and q.receiver(st.value) == "self._read_buffer" and st.value.args and q.dotted(st.value.args[0]) == "self._read_delimiter" and len(st.value.args) == 1]
+            finds = [st for st in q.walk_body(fi.node) if isinstance(st, ast.Assign) and isinstance(st.value, ast.Call) and q.call_attr(st.value) in ("find", "index") and q.receiver(st.value) == "self._read_buffer" and st.value.args and q.dotted(st.value.args[0]) == "self._read_delimiter"]
             ck.need(len(finds) == 1 and isinstance(finds[0].targets[0], ast.Name), "delimiter search is not 'loc = self._read_buffer.find(self._read_delimiter)'")
             lv = finds[0].targets[0].id
             e = subst(node.ast.value)
@@ -245,6 +270,52 @@ def find_read_pos(ck):
 
 
 # ---------------------------------------------------------------------------
+
+
+def _resume_offset_ok(ck, fi, call, start):
+    """A search that resumes at a remembered offset is complete only if the
+    offset never exceeds (bytes searched so far) - (len(delimiter) - 1): a
+    delimiter may straddle the old end of the buffer.  Every store to the
+    remembered attribute is folded over a grid of buffer sizes and delimiter
+    lengths; read entry points must reset it."""
+    attrs = sorted({d for x in ast.walk(start) for d in [q.dotted(x)] if d and d.startswith("self.") and d.count(".") == 1})
+    if q.dotted(start) is None or len(attrs) != 1:
+        raise AnalysisError("delimiter search resumes at an offset that is not a plain attribute: %s" % q.unparse(start))
+    attr = attrs[0]
+    n_st = 0
+    for rel, cls in FAMILY:
+        for f in ck.repo.direct_methods(rel, cls):
+            for st in q.stores_to(f.node, attr):
+                n_st += 1
+                v = getattr(st, "value", None)
+                if isinstance(st, ast.AugAssign):
+                    ck.ob("C11.search-coverage", f, st, False, "the remembered search offset %s is only ever set to a value that keeps len(delimiter)-1 bytes of overlap" % attr)
+                    continue
+                if v is not None and q.is_const(v, 0):
+                    ck.ob("C11.search-coverage", f, st, True, "search offset reset to 0")
+                    continue
+                ve = expand_expr(ck.repo, f, v) if v is not None else None
+                bad = []
+                for size in range(0, 7):
+                    for dl in (1, 2, 3):
+                        try:
+                            got = q.fold(ve, {"self._read_buffer_size": size, "self._read_buffer": b"x" * size, "self._read_delimiter": b"d" * dl})
+                        except (q.NotFoldable, TypeError) as ex:
+                            raise AnalysisError("cannot evaluate the remembered search offset %s: %s" % (q.unparse(v), ex))
+                        if not isinstance(got, int) or got > max(0, size - (dl - 1)):
+                            bad.append("buffered=%d len(delimiter)=%d -> %s" % (size, dl, got))
+                ck.ob("C11.search-coverage", f, st, not bad, "after an unsuccessful search the next search resumes no later than buffered - (len(delimiter) - 1): a delimiter straddling two arrivals must still be found%s" % ((" (violated for " + "; ".join(bad[:3]) + ")") if bad else ""))
+    ck.floor("C11.search-coverage", n_st, 1, "stores to %s" % attr)
+    # every delimiter read starts from offset 0 (the buffer was consumed / the delimiter changed)
+    for rel, cls in FAMILY:
+        for f in ck.repo.direct_methods(rel, cls):
+            sets = f.cfg.stmt_nodes(lambda m: m.kind == "stmt" and isinstance(m.ast, ast.Assign) and "self._read_delimiter" in q.assigned_paths(m.ast) and not (isinstance(m.ast.value, ast.Constant) and m.ast.value.value is None))
+            if not sets or f.name == "__init__":
+                continue
+            gfz = guard_facts(f, ClassEffects(ck.repo, FAMILY), extra_gen=lambda m: [("@zero", True)] if (m.kind == "stmt" and isinstance(m.ast, ast.Assign) and attr in q.assigned_paths(m.ast) and q.is_const(m.ast.value, 0)) else [],
+                              extra_kill=lambda m, fct: fct[0] == "@zero" and m.kind == "stmt" and isinstance(m.ast, (ast.Assign, ast.AugAssign)) and attr in q.assigned_paths(m.ast) and not q.is_const(getattr(m.ast, "value", None), 0))
+            for m in f.cfg.stmt_nodes(node_calls("self._try_inline_read")):
+                ck.ob("C11.search-coverage", f, m.ast, ("@zero", True) in gfz[m.id], "%s resets the remembered search offset before reading with a new delimiter" % f.name)
 
 
 def starters(ck):
@@ -374,7 +445,13 @@ def mode_fields(ck) -> List[str]:
             if isinstance(n, (ast.Assign, ast.AnnAssign, ast.AugAssign)):
                 assigned |= {p for p in q.assigned_paths(n) if p.startswith("self.") and p.count(".") == 1}
     frp = repo.func(IO, B + "._find_read_pos")
-    loaded = {q.dotted(x) for x in q.walk_body(frp.node) if isinstance(x, ast.Attribute) and isinstance(x.ctx, ast.Load) and q.dotted(x) and q.dotted(x).count(".") == 1}
+    # fields that *select* the read mode: loaded inside a branch condition of _find_read_pos
+    loaded = set()
+    for t in q.walk_body(frp.node):
+        if isinstance(t, (ast.If, ast.While, ast.IfExp)):
+            for x in ast.walk(t.test):
+                if isinstance(x, ast.Attribute) and isinstance(x.ctx, ast.Load) and q.dotted(x) and q.dotted(x).count(".") == 1:
+                    loaded.add(q.dotted(x))
     cons = repo.func(IO, B + "._consume")
     shrunk = set()
     for n in q.walk_body(cons.node):
@@ -687,6 +764,31 @@ def fill(ck):
         v = m.ast.value
         ok = isinstance(v, ast.Subscript) and isinstance(v.slice, ast.Slice) and q.dotted(v.slice.lower) == "self._read_buffer_size" and v.slice.upper is None and "self._read_buffer" in {q.dotted(x) for x in ast.walk(v.value)}
         ck.ob("C11.fill-pair", fi, m.ast, ok, "in caller-buffer mode the fd reads into the buffer starting at _read_buffer_size (after the bytes already received)")
+    # EOF (read_from_fd returned 0) closes the stream; "nothing to read" (None) does not
+    closes = fi.cfg.stmt_nodes(lambda m: m.kind == "stmt" and any(q.is_call(c, "self.close") and not c.args and not c.keywords for c in q.calls(m.ast)))
+    eof_close = False
+    for m in closes:
+        rel = [(t, p) for t, p in gf[m.id] if not t.startswith("@") and nvar in {x.id for x in ast.walk(ast.parse(t, mode="eval")) if isinstance(x, ast.Name)}]
+        sat = set()
+        for k in (None, 0, 1, 7):
+            try:
+                if all(bool(q.fold(ast.parse(t, mode="eval").body, {nvar: k})) == p for t, p in rel):
+                    sat.add(k)
+            except (q.NotFoldable, TypeError):
+                pass
+        if rel and sat == {0}:
+            eof_close = True
+    ck.ob("C11.eof-closes", fi, fi.node, eof_close, "when read_from_fd reports EOF (0 bytes) - and only then - _read_to_buffer closes the stream (until-close reads complete, pending reads fail)", construct="EOF closes the stream in _read_to_buffer")
+    for m in fi.cfg.stmt_nodes(lambda m: m.kind == "stmt" and isinstance(m.ast, ast.Return) and isinstance(m.ast.value, ast.Constant) and m.ast.value.value == 0):
+        rel = [(t, p) for t, p in gf[m.id] if not t.startswith("@") and nvar in {x.id for x in ast.walk(ast.parse(t, mode="eval")) if isinstance(x, ast.Name)}]
+        sat = set()
+        for k in (None, 0, 1, 7):
+            try:
+                if all(bool(q.fold(ast.parse(t, mode="eval").body, {nvar: k})) == p for t, p in rel):
+                    sat.add(k)
+            except (q.NotFoldable, TypeError):
+                pass
+        ck.ob("C11.eof-closes", fi, m.ast, bool(rel) and not (sat & {1, 7}), "'no progress' (return 0) is reported only when read_from_fd returned None or 0, never after bytes were received")
     # EOF / would-block produce no growth
     for m in sizes:
         ok = has(gf[m.id], "%s is None" % nvar, False)
@@ -776,6 +878,7 @@ def _reaches(cfg, starts: Set[int], target: int) -> bool:
 
 def run(ck):
     ck.rule("C11.max-bytes-checked", "_find_read_pos: every delimiter/regex position returned was passed to _check_max_bytes (same expression) and every unsuccessful search checks the buffered size")
+    ck.rule("C11.search-coverage", "_find_read_pos searches every byte that can still belong to a match: from 0, or from a remembered offset that keeps len(delimiter)-1 bytes of overlap and is reset per read; regex searches always cover the whole buffer")
     ck.rule("C11.position-value", "_find_read_pos: the delimiter position is find(delimiter) + len(delimiter); the regex position is search(buffer).end()")
     ck.rule("C11.starter-args", "every read entry point registers the read and stores its arguments in the read-mode fields before it tries to read")
     ck.rule("C11.find-pos-fixed", "_find_read_pos fixed-size branch: satisfiable iff buffered >= n or (partial and buffered > 0); returns min(n, buffered) (CFG folded over a finite domain)")
@@ -790,6 +893,7 @@ def run(ck):
     ck.rule("C11.consume-pair", "_consume: copy [:loc], then delete [:loc] and decrease the size by loc, together and once; empty only for loc == 0")
     ck.rule("C11.consume-only-shrinker", "_consume (called only by _finish_read) is the only code that removes bytes from the read buffer, besides read_into's hand-over")
     ck.rule("C11.fill-pair", "_read_to_buffer: appended bytes = first n of the chunk, size += n, n = read_from_fd's count; caller-buffer reads land at offset _read_buffer_size")
+    ck.rule("C11.eof-closes", "_read_to_buffer closes the stream exactly on EOF (0) and reports 'no progress' only for None/0")
     ck.rule("C11.read-into-swap", "read_into: copy buffered bytes, delete the copied prefix, save the remainder, then swap buffers and describe the new buffer, all before reading")
     find_read_pos(ck)
     starters(ck)
@@ -888,7 +992,41 @@ def _consume_delete_first(root):
     return False
 
 
+def _search_cache(overlap: bool):
+    """seeded C11-adv1: read_until remembers how far the buffer was searched"""
+    def make(repo):
+        def edit_cls(cls):
+            ok = [False, False, False]
+            for fn in cls.body:
+                if isinstance(fn, ast.FunctionDef) and fn.name == "__init__":
+                    fn.body.append(parse_stmt("self._read_delimiter_pos = 0"))
+                    ok[0] = True
+                if isinstance(fn, ast.FunctionDef) and fn.name == "read_until":
+                    for i, st in enumerate(fn.body):
+                        if isinstance(st, ast.Assign) and _src(st.targets[0]) == "self._read_delimiter":
+                            fn.body.insert(i + 1, parse_stmt("self._read_delimiter_pos = 0"))
+                            ok[1] = True
+                            break
+                if isinstance(fn, ast.FunctionDef) and fn.name == "_find_read_pos":
+                    for n in ast.walk(fn):
+                        if isinstance(n, ast.Call) and _src(n.func) == "self._read_buffer.find":
+                            n.args.append(parse_expr("self._read_delimiter_pos"))
+                        b = getattr(n, "body", None)
+                        if isinstance(b, list):
+                            for i, st in enumerate(b):
+                                if isinstance(st, ast.Expr) and "_check_max_bytes(self._read_delimiter, self._read_buffer_size)" in _src(st):
+                                    val = "max(0, self._read_buffer_size - len(self._read_delimiter) + 1)" if overlap else "self._read_buffer_size"
+                                    b.insert(i + 1, parse_stmt("self._read_delimiter_pos = " + val))
+                                    ok[2] = True
+                                    break
+            return all(ok)
+        return mutate(repo, IO, B, edit_cls)
+    return make
+
+
 MUTANTS = [
+    ("seeded C11-adv1: search-position cache without the len(delimiter)-1 overlap", _search_cache(False), "C11.search-coverage"),
+    ("regex search resumes at the old buffer size", _in(B + "._find_read_pos", replace_expr(lambda n: isinstance(n, ast.Call) and _src(n.func) == "self._read_regex.search", lambda n: ast.Call(func=n.func, args=n.args + [parse_expr("self._read_buffer_size - 1")], keywords=[]))), "C11.search-coverage"),
     ("delimiter position returned unchecked", _in(B + "._find_read_pos", _nth(_is_check, 0, _delete)), "C11.max-bytes-checked"),
     ("max_bytes checked without the delimiter length", _in(B + "._find_read_pos", replace_expr(lambda n: isinstance(n, ast.Call) and "_check_max_bytes" in _src(n.func) and isinstance(n.args[1], ast.BinOp), lambda n: ast.Call(func=n.func, args=[n.args[0], n.args[1].left], keywords=[]))), "C11.max-bytes-checked"),
     ("delimiter position excludes the delimiter's last byte", _in(B + "._find_read_pos", replace_stmt(lambda st: isinstance(st, ast.Assign) and _src(st.targets[0]) == "delimiter_len", lambda st: [parse_stmt("delimiter_len = len(self._read_delimiter) - 1")])), "C11.position-value"),
@@ -910,6 +1048,7 @@ MUTANTS = [
     ("_finish_read stays in caller-buffer mode (result kind of the next read)", _in(B + "._finish_read", replace_stmt(lambda st: isinstance(st, ast.Assign) and _src(st) == "self._user_read_buffer = False", lambda st: [parse_stmt("self._user_read_buffer = bool(self._after_user_read_buffer)")])), "C11.read-end-mode"),
     ("_consume forgets the size", _in(B + "._consume", remove_stmts(lambda st: isinstance(st, ast.AugAssign))), "C11.consume-pair"),
     ("_consume deletes before copying", _in(B + "._consume", _consume_delete_first), "C11.consume-pair"),
+    ("EOF treated like 'nothing to read' (if not bytes_read: return 0)", _in(B + "._read_to_buffer", replace_stmt(lambda st: isinstance(st, ast.If) and _src(st.test) == "bytes_read is None", lambda st: [ast.If(test=parse_expr("not bytes_read"), body=[parse_stmt("return 0")], orelse=[])])), "C11.eof-closes"),
     ("_read_to_buffer appends the whole chunk", _in(B + "._read_to_buffer", replace_expr(lambda n: isinstance(n, ast.Subscript) and isinstance(n.slice, ast.Slice) and _src(n.slice.upper or ast.Constant(value=0)) == "bytes_read", lambda n: n.value)), "C11.fill-pair"),
     ("caller-buffer read overwrites received bytes", _in(B + "._read_to_buffer", replace_expr(lambda n: isinstance(n, ast.Subscript) and isinstance(n.slice, ast.Slice) and _src(n.slice.lower or ast.Constant(value=0)) == "self._read_buffer_size", lambda n: n.value)), "C11.fill-pair"),
     ("read_into keeps the copied prefix in the internal buffer", _in(B + ".read_into", remove_stmts(lambda st: isinstance(st, ast.Delete))), "C11.read-into-swap"),
